@@ -102,11 +102,19 @@ class Reset:
     """script item: recv() raises ConnectionResetError (an OSError)"""
 
 
+class Delayed:
+    """script item (free-running clocks): `data` (bytes, or CLOSED) becomes available `dt` seconds after
+    the recv() that first waits for it; a socket timeout shorter than the remaining wait fires first"""
+
+    def __init__(self, dt, data):
+        self.dt, self.data = dt, data
+
+
 class ScriptedClient:
     """The socket object handed to `_tcp_incoming_handle_client`.
 
     script: list of  bytes (returned by recv; more than the n asked for is kept for the next recv),
-                     CLOSED, TIMEOUT, Reset().
+                     CLOSED, TIMEOUT, Reset(), Delayed(dt, bytes | CLOSED).
             An exhausted script behaves like CLOSED (a finished sender has closed).
     clock:  optional FakeClock; a TIMEOUT read advances it by the socket's timeout (free-running clocks only).
     clock_readings: optional list; when FakeNet.accept() hands this client out, the net's clock is
@@ -140,6 +148,16 @@ class ScriptedClient:
             raise OSError(9, "Bad file descriptor")
         self.recv_calls += 1
         item = self.script[0] if self.script else CLOSED
+        if isinstance(item, Delayed):
+            if self.timeout is not None and item.dt >= self.timeout:
+                item.dt -= self.timeout
+                self.log.append(("recv", n, self.timeout, "timeout", 0))
+                if self.clock is not None and self.clock.readings is None:
+                    self.clock.advance(self.timeout)
+                raise _real_socket.timeout("timed out")
+            if self.clock is not None and self.clock.readings is None:
+                self.clock.advance(item.dt)
+            item = self.script[0] = item.data
         if isinstance(item, (bytes, bytearray)):
             item = bytes(item)
             if len(item) > n:
